@@ -1,14 +1,20 @@
 (* Small-step model of WaitGroup::wait racing with add() / done() (core/src/runtime/waitgroup.rs).
 
+   The code as it is since its fix: commit (g_fixed = true):
      pub async fn wait(&self) {
-       if self.count.load() == 0 { return; }          -- GIdle : fast-path check
+       if self.count.load() == 0 { return; }          -- GIdle   : fast-path check
        loop {
-         self.notify_on_zero.notified()                -- GCreate: the Notified future is created
-                            .await;                    -- GAwait : ready iff notify_waiters() was called
-                                                                   after the future was created
-         if self.count.load() == 0 { return; }         -- GCheck
-       }
+         let notified = self.notify_on_zero.notified(); -- GFCreate: the Notified future is created
+         if self.count.load() == 0 { return; }         -- GFCheck : check with the future in hand
+         [schedule point wg_wait_before_notified]
+         notified.await;                               -- GAwait  : ready iff notify_waiters() was called
+       }                                                            after the future was created
      }
+   The order at the pinned commit (g_fixed = false), kept as the refuted legacy witness:
+       if count == 0 { return }                        -- GIdle
+       loop { self.notify_on_zero.notified()           -- GCreate (future created AFTER the check)
+                                 .await;               -- GAwait
+              if count == 0 { return } }               -- GCheck
      pub fn done(&self) {
        let old = self.count.fetch_sub(1);              -- EDec   (old = 0: restore and panic)
        if old == 1 { self.notify_on_zero.notify_waiters(); }   -- ENotify
@@ -16,10 +22,7 @@
 
    tokio::sync::Notify semantics used: `notify_waiters()` wakes exactly the `Notified` futures that
    already exist (a future remembers the notify_waiters call counter at creation and is ready as
-   soon as the counter differs); no permit is stored for futures created later.
-
-   `g_fixed = true` is the repaired order (create the future, then check, then await) - the shape
-   LoadBalancer::wait_for_connection has since its fix: commit. *)
+   soon as the counter differs); no permit is stored for futures created later. *)
 From RZ Require Import Base.Prelude.
 
 Inductive wgpc :=
@@ -41,8 +44,8 @@ Definition gset_pc (s : gst) (p : wgpc) : gst := mkG (g_count s) (g_calls s) (g_
 Definition gstep (s : gst) : option gst :=
   match g_pc s with
   | GIdle =>
-      Some (gset_pc s (if g_fixed s then GFCreate
-                       else if g_count s =? 0 then GDone else GCreate))
+      Some (gset_pc s (if g_count s =? 0 then GDone
+                       else if g_fixed s then GFCreate else GCreate))
   | GCreate => Some (gset_pc s (GAwait (g_calls s)))
   | GAwait seen =>
       if g_calls s =? seen then None
@@ -92,23 +95,23 @@ Fixpoint gsettle (k : nat) (s : gst) : gst :=
   | S k' => match gstep s with Some s' => gsettle k' s' | None => s end
   end.
 
-(* One poll of the future as the harness drives it (single thread, code order as it is today):
-   the steps up to the schedule point before `notified()`, then `gap` = operations of other tasks
-   landing at that point, then on until the task parks or returns.
+(* One poll of the future as the harness drives it (single thread; the code after the fix: commit):
+   the fast-path check, the future is created, the count is checked, and the schedule point sits
+   between that check and the await.  `gap` = operations of other tasks that land at that point
+   (first time it is reached in this poll), then on until the task parks or returns.
    Returns (schedule point reached?, state after the poll). *)
-Definition reaches_create (s : gst) : option gst :=
-  match g_pc s with
-  | GIdle => gstep s
-  | GAwait _ => match gstep s with Some s' => gstep s' | None => None end
-  | _ => None
-  end.
-
 Definition gpoll_gap (s : gst) (gap : list geop) : bool * gst :=
-  match reaches_create s with
+  let started :=
+    match g_pc s with
+    | GIdle => Some (grun [GW; GW; GW] s)
+    | GAwait _ => match gstep s with Some s' => Some (grun [GW; GW] s') | None => None end
+    | _ => None
+    end in
+  match started with
   | None => (false, s)
   | Some s1 =>
       match g_pc s1 with
-      | GCreate => (true, gsettle 8 (grun (map GE gap) s1))
+      | GAwait _ => (true, gsettle 8 (grun (map GE gap) s1))
       | _ => (false, s1)
       end
   end.
